@@ -154,11 +154,10 @@ let () =
              match ct_query dfun kk (valid_b dfun (leaf_points t) kk) (ct_fuel t) t with
              | None -> Printf.printf "CT 0 0 inv=1 holds=1 query=out-of-fuel\n"
              | Some (rows, ok) ->
-               if not ok then Printf.printf "CT 0 0 inv=1 holds=1 audit=0\n"
-               else begin
-                 Printf.printf "CT 1 %d inv=1 holds=1 audit=1\n" (List.length rows);
-                 List.iter (fun (q, cands) -> Printf.printf "CQ %d : %s\n" (int_of_z q) (zl cands)) rows
-               end
+               (* audit=0: the hypothesis of ct_query_complete_partial is not met for this query (the bound was
+                  not valid in the strengthened form at some read); the rows are still compared *)
+               Printf.printf "CT 1 %d inv=1 holds=1 audit=%s\n" (List.length rows) (b01 ok);
+               List.iter (fun (q, cands) -> Printf.printf "CQ %d : %s\n" (int_of_z q) (zl cands)) rows
            end
          | ["END"] -> print_string "END\n"
          | _ -> print_string "? unknown\n"
